@@ -110,6 +110,8 @@ pub struct World {
     pub created: BTreeMap<String, i64>,
     /// generator mode: miner m1 never proves (its sectors fault, time out together and leave a termination backlog)
     pub neglect: std::cell::Cell<bool>,
+    /// generator: a miner in fee debt was just topped up -- withdraw (nothing or little) before the cron repays the debt
+    pub pending_w0: std::cell::RefCell<Option<String>>,
 }
 
 impl World {
@@ -152,7 +154,7 @@ impl World {
             miners.push(m.to_string());
         }
         let burnt0 = v.balance(&BURNT_FUNDS_ACTOR_ADDR);
-        World { boost: boost_amt, v, names, miners, burnt0, bad_posts: Default::default(), created, neglect: Default::default() }
+        World { boost: boost_amt, v, names, miners, burnt0, bad_posts: Default::default(), created, neglect: Default::default(), pending_w0: Default::default() }
     }
 
     pub fn mstate(&self, m: &str) -> MinerState {
@@ -693,6 +695,21 @@ fn random_call(rng: &mut Rng, w: &World, policy: &Policy) -> Value {
     let cur = (((epoch - pps) % period + period) % period) / wdw;
     let alloc: Vec<u64> = ms["alloc"].as_array().unwrap().iter().map(|x| x.as_u64().unwrap()).collect();
     let pre: Vec<u64> = ms["pre"].as_array().unwrap().iter().map(|x| x["n"].as_u64().unwrap()).collect();
+    if let Some(pm) = w.pending_w0.borrow_mut().take() {
+        return json!({"a": "Withdraw", "m": pm, "c": "owner", "nano": *rng.pick(&[0, 0, 1, 1_000_000_000])});
+    }
+    // a miner in fee debt: top it up now and then (the next call withdraws before the cron can repay the debt)
+    if ms["debt"].as_array().unwrap().len() > 1 && rng.chance(12) {
+        *w.pending_w0.borrow_mut() = Some(m.clone());
+        // (enough to cover the whole debt -- a withdrawal aborts otherwise -- or, rarely, too little)
+        let limbs = ms["debt"].as_array().unwrap();
+        let mut debt: u128 = 0;
+        for x in limbs.iter().skip(1).rev() {
+            debt = debt * 10_000 + x.as_u64().unwrap() as u128;
+        }
+        let need = (debt / 1_000_000_000) as i64 + 1;
+        return json!({"a": "Fund", "m": m, "nano": *rng.pick(&[need, need, need + 1000, need + 50_000_000, 1000])});
+    }
     let who = if rng.chance(6) { "x" } else if rng.chance(30) { "owner" } else { "worker" };
     // all (deadline, partition, sector sets)
     let mut parts: Vec<(i64, u64, Vec<u64>, Vec<u64>, Vec<u64>, Vec<u64>, Vec<u64>)> = vec![];
